@@ -330,6 +330,7 @@ type PureFn struct {
 	Body   *SExpr // nil => uninterpreted ghost function
 	NArgs  int
 	Bool   bool
+	Opaque bool // applications stay uninterpreted unless a spec says `reveal f(args)`
 }
 
 type FuncSpec struct {
@@ -347,6 +348,7 @@ type FuncSpec struct {
 	File     string
 	Line     int
 	Guarded  []string
+	Reveals  []*SExpr
 	Unroll   int // default unroll for all loops of the function (bounded mode)
 }
 
@@ -372,7 +374,7 @@ type Contracts struct {
 	Globals map[string]string
 }
 
-var clauseKw = regexp.MustCompile(`^(requires|ensures|modifies|loop|end|inline|trusted|pure-effects|noalloc|unroll)\b`)
+var clauseKw = regexp.MustCompile(`^(requires|ensures|modifies|loop|end|inline|trusted|pure-effects|noalloc|unroll|reveal)\b`)
 var labelRe = regexp.MustCompile(`^([A-Za-z_][A-Za-z0-9_]*)\s*(\[[A-Z0-9, ]*\])?\s*:\s*(.*)$`)
 
 func parseTags(s string) []string {
@@ -483,6 +485,11 @@ func (cs *Contracts) parseFile(pkg, file, data string) {
 			// pure name(a, b) = expr   |   pure bool name(a) = expr
 			rest := strings.TrimSpace(s[5:])
 			isBool := false
+			opaque := false
+			if strings.HasPrefix(rest, "opaque ") {
+				opaque = true
+				rest = strings.TrimSpace(rest[7:])
+			}
 			if strings.HasPrefix(rest, "bool ") {
 				isBool = true
 				rest = strings.TrimSpace(rest[5:])
@@ -494,7 +501,7 @@ func (cs *Contracts) parseFile(pkg, file, data string) {
 			if err != nil {
 				panic(fmt.Sprintf("%s:%d: %v", file, l.n, err))
 			}
-			cs.Pures[name] = &PureFn{Name: name, Params: params, Body: x, NArgs: len(params), Bool: isBool}
+			cs.Pures[name] = &PureFn{Name: name, Params: params, Body: x, NArgs: len(params), Bool: isBool, Opaque: opaque}
 		case strings.HasPrefix(s, "ghost "):
 			rest := strings.TrimSpace(s[6:])
 			isBool := false
@@ -576,6 +583,12 @@ func (cs *Contracts) parseFile(pkg, file, data string) {
 			default:
 				panic(fmt.Sprintf("%s:%d: bad loop clause: %s", file, l.n, rest))
 			}
+		case strings.HasPrefix(s, "reveal "):
+			x, err := parseSpecExpr(strings.TrimSpace(s[7:]))
+			if err != nil || x.Op != "call" {
+				panic(fmt.Sprintf("%s:%d: reveal needs a function application", file, l.n))
+			}
+			cur.Reveals = append(cur.Reveals, x)
 		case s == "inline":
 			cur.Inline = true
 		case s == "trusted":
